@@ -27,7 +27,7 @@ fn main() {
         progs.push((format!("g{i}"), gen_program(seed, n)));
     }
     // mover programs: every barriered store path, validated under slow marking from many start points
-    let movers: Vec<(String, String)> = (0..9).map(|k| (format!("mover{k}"), mover_program(k, 5))).collect();
+    let movers: Vec<(String, String)> = (0..12).map(|k| (format!("mover{k}"), mover_program(k, 5))).collect();
     for (name, src) in movers.iter().chain(progs.iter()) {
         if abra_core::compile_bytecode("main.abra", provider(src, &[])).is_err() {
             ctx.notes.push(format!("GENERATOR BUG: program {name} is rejected by the compiler and was skipped"));
